@@ -900,6 +900,16 @@ func (in *Interp) eval(st *State, e ast.Expr) Val {
 				return in.readPath(st, b.Path+"[*]", t)
 			}
 		}
+		// a fixed-size table (name table, width table) indexed by a computed value: the index must lie inside it
+		if at := arrayOf(in.info.TypeOf(x.X)); at != nil {
+			if tv, isConst := in.info.Types[x.Index]; !isConst || tv.Value == nil {
+				idx := in.evalInt(st, x.Index)
+				facts := append([]Fact(nil), st.facts...)
+				in.addSite(&Site{Kind: "index", Buf: in.render(st, x.X), Origin: "array", Pos: x.Pos(), Text: in.render(st, x), Fn: in.fi.Key, Guard: in.guard(), Expr: x,
+					Needs: []Need{{A: Const(0), B: idx, What: "index not negative"}, {A: idx.AddC(1), B: Const(at.Len()), What: fmt.Sprintf("index inside the %d-element array", at.Len())}}, Facts: facts})
+				return in.symbolic(st, in.render(st, x.X)+"[*]", at.Elem())
+			}
+		}
 		// map element: symbolic by the map's name
 		if mt, ok := in.info.TypeOf(x.X).Underlying().(*types.Map); ok {
 			name := in.operand(st, x.X)
@@ -1277,4 +1287,16 @@ func sortedObjKeys(m map[types.Object]Val) []types.Object {
 	}
 	sort.Slice(ks, func(i, j int) bool { return ks[i].Pos() < ks[j].Pos() })
 	return ks
+}
+
+// arrayOf: the array type behind an expression of array or pointer-to-array type.
+func arrayOf(t types.Type) *types.Array {
+	if t == nil {
+		return nil
+	}
+	if p, ok := t.Underlying().(*types.Pointer); ok {
+		t = p.Elem()
+	}
+	a, _ := t.Underlying().(*types.Array)
+	return a
 }
